@@ -144,6 +144,26 @@ def fam_stack_concat(shapes: list[tuple[int, ...]]) -> Iterator[dict]:
                        "outs": {"out": k + 1}}
 
 
+def fam_concat_empty(with_user: bool = True) -> Iterator[dict]:
+    """concatenate / stack where an operand that is EMPTY along the axis has the dtype that
+    widens the result (it still takes part in type promotion), at every position."""
+    for da, db in (("i4", "f8"), ("f4", "f8"), ("i4", "i8"), ("f8", "c16"), ("b1", "i4")):
+        for pos in range(3):
+            shapes = [(2, 2), (2, 1), (2, 3)]
+            dts = [da, da, da]
+            shapes[pos] = (2, 0)
+            dts[pos] = db
+            ins = [inp(f"x{j}", shapes[j], dts[j]) for j in range(3)]
+            yield {"id": f"concat-empty/{da}-{db}/p{pos}", "inputs": ins,
+                   "calls": [{"op": "concatenate", "arrays": [1, 2, 3], "axis": 1}]
+                   + ([{"op": "mul", "a": 4, "b": 4}] if with_user else []),
+                   "outs": {"out": 4, "out_b": 5} if with_user else {"out": 4}}
+        yield {"id": f"concat-empty/{da}-{db}/1d", "inputs": [inp("x0", (3,), da),
+                                                                inp("x1", (0,), db)],
+               "calls": [{"op": "concatenate", "arrays": [1, 2], "axis": 0}],
+               "outs": {"out": 3}}
+
+
 def fam_advanced(rng: np.random.Generator, shapes: list[tuple[int, ...]],
                  per_shape: int) -> Iterator[dict]:
     """Advanced indexing: 1..3 index arrays of broadcastable shapes, ints and
@@ -415,6 +435,43 @@ def fam_scalars() -> Iterator[dict]:
                                  {"op": "where", "c": 2, "a": sc, "b": 1},
                                  {"op": "where", "c": 2, "a": 1, "b": sc}],
                        "outs": {"out": 3, "out_b": 4}}
+
+
+def fam_boolarith() -> Iterator[dict]:
+    """Arithmetic on BOOLEAN arrays (NumPy: + is logical or, * is logical and) whose result is
+    consumed by a wider computation -- where an inlined C expression would add the 0/1
+    integers -- for boolean inputs and for comparison results, every combining operation
+    x every consumer."""
+    tf = [True, True, False, False, True, False]
+    ft = [True, False, True, False, True, True]
+    p = {"name": "p", "shape": [6], "dtype": "b1", "kind": "ph", "data": tf}
+    q = {"name": "q", "shape": [6], "dtype": "b1", "kind": "ph", "data": ft}
+    x = {"name": "x", "shape": [6], "dtype": "f8", "kind": "ph",
+         "data": [3.0, 1.0, -1.0, 0.5, 2.5, -2.0]}
+    combine = ("add", "mul", "bitor", "bitand", "bitxor", "logical_or", "logical_and",
+               "maximum", "minimum", "eq", "ne")
+    consumers = {
+        "scale": lambda r: [{"op": "mul", "a": r, "b": {"py": "float", "v": "1.5"}}],
+        "astype": lambda r: [{"op": "astype", "a": r, "dtype": "f8"}],
+        "where": lambda r: [{"op": "where", "c": r, "a": 3, "b": {"py": "float", "v": "0.0"}}],
+        "add_int": lambda r: [{"op": "add", "a": r, "b": {"py": "int", "v": "1"}}],
+        "twice": lambda r: [{"op": "add", "a": r, "b": r},
+                            {"op": "mul", "a": r + 1, "b": {"py": "float", "v": "1.5"}}],
+        "none": lambda r: [],
+    }
+    for src in ("inputs", "comparisons"):
+        for op in combine:
+            for cname, cons in consumers.items():
+                if src == "inputs":
+                    calls = [{"op": op, "a": 1, "b": 2}]
+                else:
+                    calls = [{"op": "gt", "a": 3, "b": {"py": "int", "v": "0"}},
+                             {"op": "gt", "a": 3, "b": {"py": "int", "v": "2"}},
+                             {"op": op, "a": 4, "b": 5}]
+                r = 3 + len(calls)
+                calls = calls + cons(r)
+                yield {"id": f"boolarith/{src}/{op}/{cname}", "inputs": [p, q, x],
+                       "calls": calls, "outs": {"out": 3 + len(calls)}}
 
 
 def fam_lpcall(rng: np.random.Generator, count: int) -> Iterator[dict]:
